@@ -10,6 +10,8 @@ def fscore_small(ctx):
     # call paths of depth 3 (operations two levels below a regular file, deep renames) and Chtimes / two permission values
     graph_stage(ctx, "fscore-deep", "MC_FSCore.tla", "FSCore.deep.cfg", "fscore", FS_ADAPTERS, ["--names", "a,b", "--depth", "4"], workers=4)
     graph_stage(ctx, "fscore-times", "MC_FSCore.tla", "FSCore.times.cfg", "fscore", FS_ADAPTERS, ["--names", "a", "--depth", "3"], workers=4)
+    # names that are string prefixes of each other ("a", "ab"): only whole elements count
+    graph_stage(ctx, "fscore-prefix", "MC_FSCore.tla", "FSCore.prefix.cfg", "fscore", FS_ADAPTERS, ["--names", "a,ab", "--depth", "3"], workers=4)
 
 
 def fscore_stages(ctx):
@@ -60,7 +62,7 @@ def c16_stages(ctx):
     graph_stage(ctx, "fscore-quick", "MC_FSCore.tla", "FSCore.quick.cfg", "fscore", FS_ADAPTERS, ["--names", "a,b", "--depth", "3"])
 
 
-SUB_SPEC = ["sub=d=mem", "sub=d/e=kvplain", "sub=d=sub=e=mem", "sub=d=oshp", "sub=d=sub=.=oshp", "sub=d=mntat"]   # state follows FSCore inside the view
+SUB_SPEC = ["sub=d=mem", "sub=d/e=kvplain", "sub=d=sub=e=mem", "sub=d=oshp", "sub=d=sub=.=oshp", "sub=d=mntat", "sub=.=mem", "sub=.=sub=d=mem"]   # state follows FSCore inside the view
 SUB_TWIN = ["sub=d=openonly", "sub=d=mntabove", "sub=d/e=mntnested", "sub=d=mntatnested"]                                              # twin comparison only
 
 
